@@ -71,7 +71,7 @@ func newEnv(t *testing.T) (*env, func()) {
 		e.pcmu.Unlock()
 	})
 	r, err := rig.New(rig.Options{EventMgr: mgr,
-		Backends: map[string]*rig.Backend{"a": a.Backend, "b": b.Backend}, Try: []string{"a"},
+		Backends: map[string]*rig.Backend{"a": a.Backend, "b": b.Backend}, Try: []string{"a", "b"},
 		Mutate: func(c *config.Config) {
 			c.PacketLimiter.PacketsPerSecond = 0 // the caps histories burst > 1000 packets
 			c.PacketLimiter.BytesPerSecond = 0
@@ -104,7 +104,6 @@ type run struct {
 	c      *rig.SClient
 	target *rig.SBackendConn // the backend whose received custom payloads are judged
 	sent   int
-	giveUp bool
 	nbar   int
 	name   string
 	note   []string
@@ -175,10 +174,6 @@ func (x *run) finish(bc *rig.SBackendConn, n int) {
 	if !bc.AwaitFinishAck(1, x.e.long) {
 		x.notef("backend saw no finish ack")
 	}
-	// the proxy installs the handler that understands JoinGame only after it wrote this
-	// acknowledgement; a JoinGame that overtakes it is forwarded raw and the player never
-	// joins (join() then gives the run up)
-	time.Sleep(30 * time.Millisecond)
 }
 
 // join lets the backend send JoinGame and waits until the client has it and the proxy
@@ -195,7 +190,6 @@ func (x *run) join(bc *rig.SBackendConn, n int) {
 		return x.e.pc[x.name] >= n
 	}) {
 		x.notef("no ServerPostConnectEvent #%d", n)
-		x.giveUp = true // the join never completed: nothing can be judged from this run
 	}
 }
 
@@ -279,13 +273,6 @@ func (x *run) why() string {
 // finishRun waits (generously) until everything sent reached the target, then records
 // what the target received, whether the player was disconnected, and the end.
 func (x *run) finishRun() {
-	if x.giveUp {
-		x.emit(tracefmt.Rec{"ev": "abort", "notes": x.note})
-		if x.c != nil {
-			_ = x.c.Close()
-		}
-		return
-	}
 	if x.target != nil {
 		x.target.Wait(4*time.Second, func(l []rig.Recv, closed bool) bool {
 			return closed || x.disconnected() || len(received(l, x.target.Proto)) >= x.sent
@@ -365,6 +352,19 @@ func (e *env) play(hi int, h hist) []tracefmt.Rec {
 			x.setPhase(phase.NotStartedLegacyForgeHandshakeClientPhase)
 		case "unhold":
 			x.setPhase(phase.CompleteLegacyForgeHandshakeClientPhase)
+		case "kick":
+			// the ready first backend drops the player in the configuration phase: the proxy
+			// falls back to "b"; from here on the client's messages are meant for "b"
+			time.Sleep(e.pace)
+			_ = cur.Close()
+			nb, err := e.rt.Await("b", x.name, e.long)
+			if err != nil {
+				x.notef("%v", err)
+				x.finishRun()
+				return x.recs
+			}
+			cur, x.target = nb, nb
+			released = false
 		case "switch":
 			if h.Kind == "playq763" {
 				x.barrier(cur) // the held messages are in the pre-join queue before the switch starts
@@ -513,9 +513,6 @@ func TestSched(t *testing.T) {
 			x.finish(bc, 1)
 			x.join(bc, 1)
 			x.finishRun()
-			if x.giveUp {
-				continue
-			}
 			if len(samples) < 2 && s.K > 1 {
 				samples = append(samples, map[string]any{"order": s.Order, "passed": passed, "trace": x.recs})
 			}
